@@ -180,7 +180,7 @@ PROPS = {
         "assumptions": [],
     },
     "C09": {
-        "thm": "SameVerif.Thm.C09",
+        "thm": ["SameVerif.Thm.C09", "SameVerif.Thm.C09busy"],
         "suites": ["siglong", "framer"],
         "spec_filter": r"^spec\.(sig c09|c07\.stream) ",
         "technique": "Lean 4 invariants and run-level theorem on the receiver glue model (timer armed by every StartOfMessage event, forced EndOfMessage not swallowed by the change filter, every StartOfMessage closed by the first NoCarrier tick after the timeout) + framer length cap/busy bound (C07) + 140 s runs of the real receiver replayed on the models",
